@@ -31,6 +31,14 @@ EXC_PARENTS = {
 }
 
 
+def _sum(xs):
+    if not xs:
+        return z3.IntVal(0)
+    if len(xs) == 1:
+        return xs[0]
+    return z3.Sum(xs)
+
+
 class PathAbort(Exception):
     pass
 
@@ -96,6 +104,7 @@ class State:
         self.init_heap: Dict[Tuple[str, str], V] = {}     # shared: value at function entry
         self.pc: List[Any] = []
         self.ghost: Dict[str, Any] = {}                    # ghost counters: name -> z3 Int
+        self.calls: Dict[str, list] = {}                   # ghost call log: name -> [env at call]
         self.objcls: Dict[str, str] = {}
 
     def snapshot(self) -> "State":
@@ -105,6 +114,7 @@ class State:
         s.init_heap = self.init_heap
         s.pc = self.pc            # shared on purpose: facts learnt while evaluating old() stay
         s.ghost = dict(self.ghost)
+        s.calls = {k: list(v) for k, v in self.calls.items()}
         s.objcls = self.objcls
         return s
 
@@ -132,6 +142,9 @@ class Engine:
         self._prune_solver = None
         self.used_assumptions: List[str] = []
         self.path_label: List[str] = []
+        self.fresh_objs = set()
+        self._comp = None
+        self.inline_depth = 0
 
     # ------------------------------------------------------------------ driver
     def run(self) -> List[VC]:
@@ -207,6 +220,9 @@ class Engine:
         self.path_label = []
         self.inputs = {}
         self.closures = {}
+        self.fresh_objs = set()
+        self._comp = None
+        self._bitcache = {}
         st = self.st
         fn = self.x.node
         facts: List[Any] = []
@@ -299,7 +315,7 @@ class Engine:
             return
         allowed = set(c.frame)
         for (oid, fld), cur in st.heap.items():
-            if (oid, fld) not in st.init_heap and oid not in self.entry.objcls_entry():
+            if oid in self.fresh_objs or any(oid.startswith(f + ".") for f in self.fresh_objs):
                 continue
             path = f"{oid}.{fld}"
             if path in allowed or (oid == "self" and fld in allowed):
@@ -390,6 +406,8 @@ class Engine:
             return f(v.t)
         if k == "py":
             return z3.BoolVal(bool(v.t))
+        if k == "dir":
+            return z3.BoolVal(True)
         raise OutOfReach(f"{self.c.key}: truthiness of {k}")
 
     def veq(self, a: V, b: V):
@@ -413,7 +431,7 @@ class Engine:
                 fa, fb = self.to_float(a), self.to_float(b)
                 return z3.fpEQ(fa, fb)
             return z3.BoolVal(False)
-        if a.k in ("int", "bool", "bytes", "str", "opaque"):
+        if a.k in ("int", "bool", "bytes", "str", "opaque", "dir"):
             return a.t == b.t
         if a.k == "float":
             return z3.fpEQ(a.t, b.t)
@@ -571,6 +589,15 @@ class Engine:
                 inner = fresh_of_sort(sort[1], "nv", facts)
                 return mk_opt(z3.BoolVal(True), inner)
             return mk_opt(z3.BoolVal(False), self.coerce(v, sort[1]))
+        if k in ("ilist", "ideque") and v.k == "tuple":
+            a = z3.K(z3.IntSort(), z3.IntVal(0))
+            for i, e in enumerate(v.t):
+                if e.k == "opt":
+                    if not self.spec_mode and self.branch(e.t[0], "elemnone"):
+                        raise PyRaise("TypeError")
+                    e = e.t[1]
+                a = z3.Store(a, i, self.as_int(e))
+            return V("ilist", (a, z3.IntVal(len(v.t)), None))
         if k == "int" and v.k == "bool":
             return mk_int(z3.If(v.t, 1, 0))
         if k == "bool" and v.k == "int":
@@ -730,7 +757,9 @@ class Engine:
             nv = fresh_of_sort(("opaque", v.cls), base, facts)
         elif v.k == "str":
             nv = fresh_of_sort(("str",), base, facts)
-        elif v.k in ("none", "obj", "py", "excv"):
+        elif v.k == "dir":
+            nv = V("dir", z3.Bool(fresh_name(base)))
+        elif v.k in ("none", "obj", "py", "excv", "func"):
             nv = v
         else:
             raise OutOfReach(f"havoc {v.k}")
@@ -983,7 +1012,17 @@ class Engine:
                 if d in self.reg.consts:
                     return self.pyval(self.reg.consts[d])
         obj = self.ev(n.value)
+        if obj.k == "opt" and obj.t[1].k == "obj":
+            if self.spec_mode:
+                obj = obj.t[1]
+            else:
+                if self.branch(obj.t[0], f"none{getattr(n, 'lineno', 0) - self.x.lineno}"):
+                    raise PyRaise("AttributeError")
+                obj = obj.t[1]
         if obj.k == "obj":
+            pr = self.reg.class_prop(obj.cls, n.attr)
+            if pr is not None:
+                return self.inline_method(pr, obj, [], {})
             return self.heap_get(obj, n.attr)
         if obj.k == "ilist" and n.attr == "maxlen":
             return mk_int(obj.t[2]) if obj.t[2] is not None else NONE
@@ -992,11 +1031,6 @@ class Engine:
                 return self.pyval(getattr(obj.t, n.attr))
             except AttributeError:
                 raise OutOfReach(f"py attr {n.attr}")
-        if obj.k == "opt":
-            # attribute of an Optional: the None case raises AttributeError
-            if self.branch(obj.t[0], f"none{n.lineno - self.x.lineno if hasattr(n,'lineno') else ''}"):
-                raise PyRaise("AttributeError")
-            return self.ev_attr_of(obj.t[1], n.attr)
         raise OutOfReach(f"{self.c.key}: attribute {n.attr} of {obj.k}")
 
     def ev_attr_of(self, obj, attr):
@@ -1041,7 +1075,7 @@ class Engine:
         return self.ev(n.orelse)
 
     def ite(self, c, a: V, b: V) -> V:
-        if a.k == b.k and a.k in ("int", "bool", "bytes", "float", "str", "opaque"):
+        if a.k == b.k and a.k in ("int", "bool", "bytes", "float", "str", "opaque", "dir"):
             return V(a.k, z3.If(c, a.t, b.t), a.cls)
         if a.k == "bool" and b.k == "int" or a.k == "int" and b.k == "bool":
             return mk_int(z3.If(c, self.as_int(a), self.as_int(b)))
@@ -1124,6 +1158,8 @@ class Engine:
         if isinstance(n.op, ast.UAdd):
             return v
         if isinstance(n.op, ast.Invert):
+            if v.k == "dir":
+                return V("dir", z3.Not(v.t))
             if v.k == "py":
                 return self.pyval(~v.t)
             return mk_int(-self.as_int(v) - 1)
@@ -1204,12 +1240,13 @@ class Engine:
                 xs, ys, x, y = ys, xs, y, x
         if z3.is_int_value(ys):
             c = ys.as_long()
-            # exact on all Python ints (infinite two's complement): bit k of x is (x div 2^k) mod 2
+            # exact on all Python ints (infinite two's complement): bit k of x is (x div 2^k) mod 2, introduced
+            # through definitional variables x == 2^k*q + r, 0 <= r < 2^k, q == 2*h + b, 0 <= b <= 1 (linear)
             def bit(k):
-                return (x / (2 ** k)) % 2
+                return self.bit_of(x, k)
             if c >= 0:
                 bits = [k for k in range(c.bit_length()) if (c >> k) & 1]
-                andv = z3.Sum([bit(k) * (2 ** k) for k in bits]) if bits else z3.IntVal(0)
+                andv = _sum([bit(k) * (2 ** k) for k in bits])
                 if isinstance(op, ast.BitAnd):
                     return andv
                 if isinstance(op, ast.BitOr):
@@ -1219,12 +1256,27 @@ class Engine:
             else:
                 m = -c - 1     # c == ~m with m >= 0
                 bits = [k for k in range(m.bit_length()) if (m >> k) & 1]
-                andm = z3.Sum([bit(k) * (2 ** k) for k in bits]) if bits else z3.IntVal(0)
+                andm = _sum([bit(k) * (2 ** k) for k in bits])
                 if isinstance(op, ast.BitAnd):
                     return x - andm          # x & ~m
                 if isinstance(op, ast.BitOr):
                     return -(m - andm) - 1   # x | ~m == ~(m & ~x)
         raise OutOfReach("symbolic bit operation on two unknowns")
+
+    def bit_of(self, x, k: int):
+        key = (x.hash(), k)
+        cache = self.__dict__.setdefault("_bitcache", {})
+        hit = cache.get(key)
+        if hit is not None and hit[0].eq(x):
+            return hit[1]
+        q = z3.Int(fresh_name("bq"))
+        r = z3.Int(fresh_name("br"))
+        h = z3.Int(fresh_name("bh"))
+        b = z3.Int(fresh_name("bb"))
+        m = 2 ** k
+        self.st.pc.append(z3.And(x == m * q + r, 0 <= r, r < m, q == 2 * h + b, 0 <= b, b <= 1))
+        cache[key] = (x, b)
+        return b
 
     def bytes_repeat(self, a: V, n):
         zs = self.reg.spec_fn("rep")
@@ -1331,9 +1383,10 @@ class Engine:
             if not self.spec_mode:
                 if not self.branch(z3.And(-ln <= i, i < ln), "idx"):
                     raise PyRaise("IndexError")
+            if self.spec_mode:
+                return mk_int(base.t[i])      # clauses index mathematically (authors guard 0 <= i < len)
             el = base.t[z3.If(i < 0, ln + i, i)]
-            if not self.spec_mode:
-                self.assume(z3.And(0 <= el, el <= 255))
+            self.assume(z3.And(0 <= el, el <= 255))
             return mk_int(el)
         if base.k == "ilist":
             a, nn, _ = base.t
@@ -1341,6 +1394,8 @@ class Engine:
             if not self.spec_mode:
                 if not self.branch(z3.And(-nn <= i, i < nn), "idx"):
                     raise PyRaise("IndexError")
+            if self.spec_mode:
+                return mk_int(a[i])
             return mk_int(a[z3.If(i < 0, nn + i, i)])
         if base.k == "py":
             i = z3.simplify(self.as_int(idx)) if idx.k in ("int", "bool") else None
@@ -1348,6 +1403,12 @@ class Engine:
                 return self.pyval(base.t[i.as_long()])
             if idx.k == "str" and z3.is_string_value(z3.simplify(idx.t)):
                 return self.pyval(base.t[z3.simplify(idx.t).as_string()])
+        if base.k in ("obj", "opaque"):
+            # block / variable lookup on message-like data: an opaque pure read (assumption recorded)
+            self.used_assumptions.append("subscript lookups on message/block data are pure reads that do not raise")
+            fn_ = z3.Function("lookup_" + (base.cls or "Any"), *( [opaque_sort(base.cls)] if base.k == "opaque" else []), z3.IntSort(), opaque_sort("Any"))
+            key = z3.Int(fresh_name("key"))
+            return V("opaque", z3.Const(fresh_name("item"), opaque_sort("Any")), "Any")
         raise OutOfReach(f"{self.c.key}: subscript of {base.k}")
 
     def _slice_idx(self, node, ln, default):
@@ -1366,13 +1427,22 @@ class Engine:
         return i.as_long()
 
     def subscript_store(self, t, v):
-        raise OutOfReach(f"{self.c.key}: subscript store")
+        base = self.ev(t.value)
+        if base.k in ("obj", "opaque"):
+            # ghost log of the store (key, value): postconditions may use ncalls('store:<target>') / called_with
+            try:
+                key = self.ev(t.slice)
+            except OutOfReach:
+                key = NONE
+            self.st.calls.setdefault("store:" + ast.unparse(t.value), []).append({"key": key, "value": v})
+            return
+        raise OutOfReach(f"{self.c.key}: subscript store on {base.k}")
 
     def ev_Lambda(self, n):
         return V("func", n)
 
     def ev_GeneratorExp(self, n):
-        raise OutOfReach(f"{self.c.key}: generator expression")
+        return self.comprehension(n)
 
     ev_ListComp = ev_GeneratorExp
 
@@ -1446,6 +1516,27 @@ class Engine:
         if nm == "count":
             g = n.args[0].value
             return mk_int(self.st.ghost.get(g, z3.IntVal(0)))
+        if nm == "ncalls":
+            return mk_int(len(self.st.calls.get(n.args[0].value, [])))
+        if nm == "called_with":
+            # called_with("name", lambda a, b, ...: pred) : some recorded call satisfies pred (args by position)
+            lam = n.args[1]
+            names = [a.arg for a in lam.args.args]
+            outs = []
+            for rec in self.st.calls.get(n.args[0].value, []):
+                vals = list(rec.values())
+                envl = {}
+                for i_, nm_ in enumerate(names):
+                    if nm_ in rec:
+                        envl[nm_] = rec[nm_]
+                    elif i_ < len(vals):
+                        envl[nm_] = vals[i_]
+                self.clause_env_stack.append(envl)
+                try:
+                    outs.append(self.truth(self.ev(lam.body)))
+                finally:
+                    self.clause_env_stack.pop()
+            return mk_bool(z3.Or(outs) if outs else z3.BoolVal(False))
         if nm == "wf":
             v = self.ev(n.args[0])
             cd = self.reg.classes.get(v.cls)
@@ -1580,6 +1671,8 @@ class Engine:
             if v.k in ("tuple", "ilist"):
                 return v
             raise OutOfReach(f"tuple({v.k})")
+        if nm == "str":
+            return V("str", z3.String(fresh_name("str")))
         if nm == "list":
             if not n.args:
                 return V("ilist", (z3.K(z3.IntSort(), z3.IntVal(0)), z3.IntVal(0), None))
@@ -1612,13 +1705,125 @@ class Engine:
             return mk_bool(cls in sup or cls.split(".")[-1] in sup)
         raise OutOfReach(f"isinstance({v.k},{cls})")
 
+    def inline_method(self, spec, recv: V, args: List[V], kw: Dict[str, V]) -> V:
+        """execute the body of a small helper / @property of the real class in a fresh local frame"""
+        from .extract import extract
+        relpath, qual = spec
+        x = extract(relpath, qual)
+        fdef = x.node
+        if self.inline_depth > 4:
+            raise OutOfReach("inline depth")
+        for sub in ast.walk(fdef):
+            if isinstance(sub, (ast.While,)):
+                raise OutOfReach(f"inlined helper {qual} has a loop")
+        params = [a.arg for a in fdef.args.args]
+        env: Dict[str, V] = {}
+        pi = 0
+        if params and params[0] in ("self", "cls"):
+            env[params[0]] = recv
+            pi = 1
+        rest = params[pi:]
+        for p_, a in zip(rest, args):
+            env[p_] = a
+        for k, v in kw.items():
+            env[k] = v
+        defaults = fdef.args.defaults
+        for p_, d in zip(rest[len(rest) - len(defaults):], defaults):
+            if p_ not in env:
+                env[p_] = self.ev(d)
+        missing = [p_ for p_ in rest if p_ not in env]
+        if missing:
+            raise OutOfReach(f"inline {qual}: missing {missing}")
+        saved_env, saved_x, saved_cl = self.st.env, self.x, self.closures
+        saved_ord = (self.loop_ord, self.if_ord)
+        self.st.env = env
+        self.closures = {}
+        self.x = x
+        self.inline_depth += 1
+        self.path_label.append(f"[{qual.split('.')[-1]}")
+        try:
+            try:
+                self.exec_block(fdef.body)
+                ret = NONE
+            except _Return as r:
+                ret = r.v
+        finally:
+            self.path_label.append("]")
+            self.inline_depth -= 1
+            self.st.env, self.x, self.closures = saved_env, saved_x, saved_cl
+        return ret
+
     def comprehension(self, n):
-        raise OutOfReach(f"{self.c.key}: comprehension")
+        """[elt(x) for x in S if cond(x)] over an integer sequence S, where elt/cond are pure expressions or calls to
+        contract methods with an empty frame. Built-in model of comprehension semantics: the result is the image under
+        elt of the subsequence of S selected by cond, order kept (strictly increasing ghost index map)."""
+        if len(n.generators) != 1 or n.generators[0].is_async or not isinstance(n.generators[0].target, ast.Name):
+            raise OutOfReach(f"{self.c.key}: comprehension shape")
+        gen = n.generators[0]
+        S = self.ev(gen.iter)
+        if S.k != "ilist":
+            raise OutOfReach(f"{self.c.key}: comprehension over {S.k}")
+        sa, sn, _ = S.t
+        xq = z3.Int(fresh_name("cx"))
+        tname = gen.target.id
+        saved = self.st.env.get(tname)
+        comp = {"bound": xq, "posts": [], "oblig": [], "guard": z3.BoolVal(True)}
+        outer = self._comp
+        self._comp = comp
+        self.st.env[tname] = mk_int(xq)
+        try:
+            conds = [self.truth(self.ev(c)) for c in gen.ifs]
+            P = z3.And(conds) if conds else z3.BoolVal(True)
+            comp["guard"] = P
+            elt = self.ev(n.elt)
+        finally:
+            self._comp = outer
+            if saved is None:
+                self.st.env.pop(tname, None)
+            else:
+                self.st.env[tname] = saved
+        if elt.k not in ("int", "bool"):
+            raise OutOfReach(f"{self.c.key}: comprehension element {elt.k}")
+        E = self.as_int(elt)
+        i = z3.Int(fresh_name("qi"))
+        j = z3.Int(fresh_name("qj"))
+        k = z3.Int(fresh_name("qk"))
+        inst = lambda f, term: z3.substitute(f, (xq, term))
+        for pst in comp["posts"]:
+            self.assume(z3.ForAll([xq], pst))
+        # obligations: every call made inside is within its precondition and does not raise
+        for lab, ob in comp["oblig"]:
+            g = z3.ForAll([i], z3.Implies(z3.And(0 <= i, i < sn), inst(ob, sa[i])))
+            self.path_label.append(f"comp{getattr(n, 'lineno', 0) - self.x.lineno}")
+            self.emit("comp-pre", g, clause=lab)
+            self.path_label.pop()
+        oa = z3.Array(fresh_name("comp_a"), z3.IntSort(), z3.IntSort())
+        on = z3.Int(fresh_name("comp_n"))
+        idx = z3.Function(fresh_name("comp_idx"), z3.IntSort(), z3.IntSort())
+        self.assume(z3.And(0 <= on, on <= sn))
+        self.assume(z3.ForAll([j], z3.Implies(z3.And(0 <= j, j < on),
+                                              z3.And(0 <= idx(j), idx(j) < sn, inst(P, sa[idx(j)]),
+                                                     oa[j] == inst(E, sa[idx(j)]))), patterns=[idx(j)]))
+        self.assume(z3.ForAll([j, k], z3.Implies(z3.And(0 <= j, j < k, k < on), idx(j) < idx(k)), patterns=[z3.MultiPattern(idx(j), idx(k))]))
+        self.assume(z3.ForAll([i], z3.Implies(z3.And(0 <= i, i < sn, inst(P, sa[i])),
+                                              z3.Exists([j], z3.And(0 <= j, j < on, idx(j) == i)))))
+        self.used_assumptions.append("comprehension semantics: built-in model (filtered image, order kept)")
+        return V("ilist", (oa, on, None))
 
     def method_call(self, n: ast.Call) -> V:
         f = n.func
         meth = f.attr
         recv = self.ev(f.value)
+        if recv.k == "opt" and recv.t[1].k == "obj":
+            if not self.spec_mode and self.branch(recv.t[0], f"nonecall{getattr(n, 'lineno', 0) - self.x.lineno}"):
+                raise PyRaise("AttributeError")
+            recv = recv.t[1]
+        if recv.k == "obj":
+            im = self.reg.class_inline(recv.cls, meth)
+            if im is not None:
+                args = [self.ev(a) for a in n.args]
+                kw = {k.arg: self.ev(k.value) for k in n.keywords}
+                return self.inline_method(im, recv, args, kw)
         if recv.k == "bytes":
             if meth == "append":
                 x = self.as_int(self.ev(n.args[0]))
@@ -1674,11 +1879,6 @@ class Engine:
             d = f"{recv.cls}.{meth}"
             if d in self.c.externals:
                 return self.ext_call(self.c.externals[d], d, n, recv)
-        if recv.k == "opt" and not self.spec_mode:
-            if self.branch(recv.t[0], "nonecall"):
-                raise PyRaise("AttributeError")
-            n2 = copy.copy(n)
-            raise OutOfReach("method call on Optional")
         raise OutOfReach(f"{self.c.key}: method {meth} on {recv.k}{':'+recv.cls if recv.cls else ''}")
 
     def store_back(self, target_node, v: V):
@@ -1701,6 +1901,14 @@ class Engine:
             env[p] = a
         for k, v in kw.items():
             env[k] = v
+        for p in list(env):
+            if p in cc.params and env[p].k == "opt" and not cc.params[p].startswith("Opt["):
+                if self.branch(env[p].t[0], f"argnone_{p}"):
+                    raise PyRaise("TypeError")
+                env[p] = env[p].t[1]
+        for p in list(env):
+            if p in cc.params:
+                env[p] = self.coerce(env[p], parse_sort(cc.params[p]))
         for p in pnames:
             if p not in env:
                 if p in cc.defaults:
@@ -1708,6 +1916,8 @@ class Engine:
                 else:
                     raise OutOfReach(f"{self.c.key}: call to {cc.key} misses argument {p}")
         lab = f"call{getattr(n, 'lineno', 0) - self.x.lineno}"
+        if self._comp is not None and not self.spec_mode:
+            return self._comp_call(cc, env)
         pre_state = self.st.snapshot()
         for r in cc.all_requires(self.reg):
             g = self.clause_bool(r, self.st, pre_state, env)
@@ -1749,6 +1959,36 @@ class Engine:
         for g, inc in cc.ghost_effects.items():
             cur = self.st.ghost.get(g, z3.IntVal(0))
             self.st.ghost[g] = cur + inc
+        if cc.record_as:
+            self.st.calls.setdefault(cc.record_as, []).append(dict(env))
+        return res
+
+    def _comp_call(self, cc, env) -> V:
+        """call to a pure contract method inside a comprehension body (argument contains the bound variable)"""
+        comp = self._comp
+        if cc.frame:
+            raise OutOfReach(f"{self.c.key}: impure call to {cc.key} inside a comprehension")
+        st = self.st
+        guard = comp["guard"]
+        pre = [self.clause_bool(r, st, st, env) for r in cc.all_requires(self.reg)]
+        rcs = [self.clause_bool(cond, st, st, env) for cond in cc.raises.values() if cond]
+        if cc.may_raise:
+            raise OutOfReach(f"{self.c.key}: callee {cc.key} may raise unconditionally inside a comprehension")
+        for r, g in zip(cc.all_requires(self.reg), pre):
+            comp["oblig"].append((f"{cc.key}: {r}", z3.Implies(guard, g)))
+        for (exc, cond), g in zip(cc.raises.items(), rcs):
+            comp["oblig"].append((f"{cc.key}: no {exc} ({cond})", z3.Implies(guard, z3.Not(g))))
+        srt = parse_sort(cc.returns)
+        zs = {"int": z3.IntSort(), "bool": z3.BoolSort()}.get(srt[0])
+        if zs is None:
+            raise OutOfReach("comprehension callee result sort")
+        fn_ = z3.Function(fresh_name("cf_" + cc.qualname.split(".")[-1]), z3.IntSort(), zs)
+        res = V(srt[0], fn_(comp["bound"]))
+        env2 = dict(env)
+        env2["result"] = res
+        ok = z3.And(pre + [z3.Not(g) for g in rcs]) if (pre or rcs) else z3.BoolVal(True)
+        for e in cc.ensures:
+            comp["posts"].append(z3.Implies(ok, self.clause_bool(e, st, st, env2)))
         return res
 
     def _havoc_frame(self, cc, recv, env):
@@ -1792,6 +2032,8 @@ class Engine:
                 raise PyRaise(excs[w - 1])
         for g, inc in summ.get("ghost", {}).items():
             self.st.ghost[g] = self.st.ghost.get(g, z3.IntVal(0)) + inc
+        if summ.get("record_as"):
+            self.st.calls.setdefault(summ["record_as"], []).append({f"arg{i}": a for i, a in enumerate(args)})
         self._ext_havoc(summ, args)
         res = self.ext_result(summ, d)
         post = summ.get("post")
@@ -1822,6 +2064,9 @@ class Engine:
         v = fresh_of_sort(parse_sort(r), "ext_" + d.replace(".", "_"), facts)
         for f in facts:
             self.assume(f)
+        if summ.get("fresh", True):
+            for o in ([v] if v.k == "obj" else [v.t[1]] if v.k == "opt" and v.t[1].k == "obj" else []):
+                self.fresh_objs.add(o.t)
         return v
 
 
